@@ -100,7 +100,7 @@ theorem applyFrom_cons (ln : Nat) (rest : List Line) (h : Hunk) (hs : List Hunk)
           match applyFrom ln' rest' hs with
           | .error e => .error e
           | .ok r => .ok (rest.take (h.origPos - ln) ++ e ++ r)
-      else .error .exhausted := by
+      else .error (.conflict (ln + rest.length)) := by
   rw [applyFrom]
   rfl
 
@@ -154,5 +154,140 @@ theorem applyFrom_ok_iff (ln : Nat) (rest : List Line) (h : Hunk) (hs : List Hun
     rintro ⟨pre, rest', out', h1, h2, _, _⟩
     apply hk
     rw [h2, ← h1]; simp
+
+/-! ## which conflict is reported -/
+
+/-- length of the longest common prefix -/
+def lcp : List Line → List Line → Nat
+  | x :: xs, y :: ys => if x = y then lcp xs ys + 1 else 0
+  | _, _ => 0
+
+theorem lcp_le_left (xs ys : List Line) : lcp xs ys ≤ xs.length := by
+  induction xs generalizing ys with
+  | nil => simp [lcp]
+  | cons x xs ih =>
+    cases ys with
+    | nil => simp [lcp]
+    | cons y ys =>
+      simp only [lcp]
+      split
+      · have := ih ys; simp only [List.length_cons]; omega
+      · omega
+
+theorem lcp_le_right (xs ys : List Line) : lcp xs ys ≤ ys.length := by
+  induction xs generalizing ys with
+  | nil => simp [lcp]
+  | cons x xs ih =>
+    cases ys with
+    | nil => simp [lcp]
+    | cons y ys =>
+      simp only [lcp]
+      split
+      · have := ih ys; simp only [List.length_cons]; omega
+      · omega
+
+/-- if the old text does not carry the hunk's old side, the inner loop raises
+`PatchConflict` at the first old line that differs (or is missing) -/
+theorem applyLines_conflict (ln : Nat) (rest : List Line) (hl : List HLine)
+    (hmis : ¬ (oldSide hl <+: rest)) :
+    applyLines ln rest hl = .error (.conflict (ln + lcp (oldSide hl) rest)) := by
+  induction hl generalizing ln rest with
+  | nil => simp [oldSide] at hmis
+  | cons l hl ih =>
+    cases l with
+    | ins x =>
+      simp only [oldSide] at hmis ⊢
+      simp only [applyLines, ih ln rest hmis]
+    | ctx x =>
+      cases rest with
+      | nil => simp [applyLines, oldSide, lcp]
+      | cons y ys =>
+        simp only [applyLines, oldSide, lcp]
+        by_cases hyx : y = x
+        · subst hyx
+          have hm : ¬ (oldSide hl <+: ys) := by
+            intro hp; apply hmis; simp only [oldSide]; exact List.cons_prefix_cons.mpr ⟨rfl, hp⟩
+          simp only [if_true, ih (ln + 1) ys hm]
+          congr 2; omega
+        · have hxy : ¬ x = y := fun h => hyx h.symm
+          simp [hyx, hxy]
+    | rem x =>
+      cases rest with
+      | nil => simp [applyLines, oldSide, lcp]
+      | cons y ys =>
+        simp only [applyLines, oldSide, lcp]
+        by_cases hyx : y = x
+        · subst hyx
+          have hm : ¬ (oldSide hl <+: ys) := by
+            intro hp; apply hmis; simp only [oldSide]; exact List.cons_prefix_cons.mpr ⟨rfl, hp⟩
+          simp only [if_true, ih (ln + 1) ys hm]
+          congr 2; omega
+        · have hxy : ¬ x = y := fun h => hyx h.symm
+          simp [hyx, hxy]
+
+/-- … and so does the whole applier: the line number is the position reached when
+the hunk starts (or the end of the text if it ends before that) plus the number
+of old-side lines that still matched -/
+theorem applyFrom_conflict (ln : Nat) (rest : List Line) (h : Hunk) (hs : List Hunk)
+    (hmis : ¬ (oldSide h.lines <+: rest.drop (h.origPos - ln))) :
+    applyFrom ln rest (h :: hs) =
+      .error (.conflict (ln + min (h.origPos - ln) rest.length +
+        lcp (oldSide h.lines) (rest.drop (h.origPos - ln)))) := by
+  rw [applyFrom_cons]
+  by_cases hk : h.origPos - ln ≤ rest.length
+  · rw [if_pos hk, applyLines_conflict _ _ _ hmis, Nat.min_eq_left hk]
+  · rw [if_neg hk]
+    have hd : rest.drop (h.origPos - ln) = [] := List.drop_eq_nil_of_le (by omega)
+    have : lcp (oldSide h.lines) [] = 0 := by cases oldSide h.lines <;> simp [lcp]
+    rw [hd, this, Nat.min_eq_right (by omega)]
+    rfl
+
+/-- every reported line number lies in `[line_no, line_no + remaining lines]`: it
+names an existing old line or the line just after the end of the text -/
+theorem applyLines_conflict_range (ln : Nat) (rest : List Line) (hl : List HLine) (k : Nat)
+    (h : applyLines ln rest hl = .error (.conflict k)) : ln ≤ k ∧ k ≤ ln + rest.length := by
+  by_cases hp : oldSide hl <+: rest
+  · obtain ⟨r, hr⟩ := hp
+    rw [← hr, applyLines_complete] at h
+    simp at h
+  · rw [applyLines_conflict ln rest hl hp] at h
+    simp only [Except.error.injEq, ApplyErr.conflict.injEq] at h
+    have := lcp_le_right (oldSide hl) rest
+    omega
+
+theorem applyFrom_conflict_range (ln : Nat) (rest : List Line) (hs : List Hunk) (k : Nat)
+    (h : applyFrom ln rest hs = .error (.conflict k)) : ln ≤ k ∧ k ≤ ln + rest.length := by
+  induction hs generalizing ln rest with
+  | nil => simp [applyFrom] at h
+  | cons hk hs ih =>
+    rw [applyFrom_cons] at h
+    split at h
+    · rename_i hle
+      cases hr : applyLines (ln + (hk.origPos - ln)) (rest.drop (hk.origPos - ln)) hk.lines with
+      | error err =>
+        cases err with
+        | conflict k' =>
+          simp only [hr, Except.error.injEq, ApplyErr.conflict.injEq] at h
+          subst h
+          have := applyLines_conflict_range _ _ _ _ hr
+          simp only [List.length_drop] at this
+          omega
+      | ok p =>
+        obtain ⟨e, ln1, r1⟩ := p
+        simp only [hr] at h
+        have hspec := (applyLines_ok_iff _ _ _ _ _ _).mp hr
+        cases hr2 : applyFrom ln1 r1 hs with
+        | ok out => simp [hr2] at h
+        | error err =>
+          cases err with
+          | conflict k' =>
+            simp only [hr2, Except.error.injEq, ApplyErr.conflict.injEq] at h
+            subst h
+            have := ih ln1 r1 hr2
+            have hl := congrArg List.length hspec.1
+            simp only [List.length_drop, List.length_append] at hl
+            omega
+    · simp only [Except.error.injEq, ApplyErr.conflict.injEq] at h
+      omega
 
 end BreezyVerif.C39
